@@ -968,25 +968,29 @@ dest_get_scanline_narrow (pixman_iter_t *iter, const uint32_t *mask)
     image->bits.fetch_scanline_32 (&image->bits, x, y, width, buffer, mask);
     if (image->common.alpha_map)
     {
-	uint32_t *alpha;
+	/* The alpha map's scanline is fetched in chunks through a small
+	 * stack buffer, so that this cannot fail for lack of memory (and
+	 * then composite with the image's own alpha channel).
+	 */
+	uint32_t alpha[256];
+	int i, j;
 
-	if ((alpha = malloc (width * sizeof (uint32_t))))
+	x -= image->common.alpha_origin_x;
+	y -= image->common.alpha_origin_y;
+
+	for (j = 0; j < width; j += 256)
 	{
-	    int i;
-
-	    x -= image->common.alpha_origin_x;
-	    y -= image->common.alpha_origin_y;
+	    int n = MIN (256, width - j);
 
 	    image->common.alpha_map->fetch_scanline_32 (
-		image->common.alpha_map, x, y, width, alpha, mask);
+		image->common.alpha_map, x + j, y, n, alpha,
+		mask ? mask + j : NULL);
 
-	    for (i = 0; i < width; ++i)
+	    for (i = 0; i < n; ++i)
 	    {
-		buffer[i] &= ~0xff000000;
-		buffer[i] |= (alpha[i] & 0xff000000);
+		buffer[j + i] &= ~0xff000000;
+		buffer[j + i] |= (alpha[i] & 0xff000000);
 	    }
-
-	    free (alpha);
 	}
     }
 
@@ -1006,22 +1010,23 @@ dest_get_scanline_wide (pixman_iter_t *iter, const uint32_t *mask)
 	image, x, y, width, (uint32_t *)buffer, mask);
     if (image->common.alpha_map)
     {
-	argb_t *alpha;
+	/* see dest_get_scanline_narrow */
+	argb_t alpha[64];
+	int i, j;
 
-	if ((alpha = malloc (width * sizeof (argb_t))))
+	x -= image->common.alpha_origin_x;
+	y -= image->common.alpha_origin_y;
+
+	for (j = 0; j < width; j += 64)
 	{
-	    int i;
-
-	    x -= image->common.alpha_origin_x;
-	    y -= image->common.alpha_origin_y;
+	    int n = MIN (64, width - j);
 
 	    image->common.alpha_map->fetch_scanline_float (
-		image->common.alpha_map, x, y, width, (uint32_t *)alpha, mask);
+		image->common.alpha_map, x + j, y, n, (uint32_t *)alpha,
+		mask ? mask + 4 * j : NULL);
 
-	    for (i = 0; i < width; ++i)
-		buffer[i].a = alpha[i].a;
-
-	    free (alpha);
+	    for (i = 0; i < n; ++i)
+		buffer[j + i].a = alpha[i].a;
 	}
     }
 
